@@ -10,8 +10,11 @@ here = os.path.dirname(os.path.dirname(os.path.abspath(__file__)))
 dst = os.path.join(here, "seeded", sid)
 os.makedirs(dst, exist_ok=True)
 for f in os.listdir(src):
-    if os.path.isfile(os.path.join(src, f)) and not f.endswith((".log", ".exe", ".o", ".out")):
-        shutil.copy(os.path.join(src, f), dst)
+    p = os.path.join(src, f)
+    if os.path.isfile(p) and not f.endswith((".log", ".exe", ".o", ".out")):
+        shutil.copy(p, dst)
+    elif os.path.isdir(p):
+        shutil.copytree(p, os.path.join(dst, f), dirs_exist_ok=True)
 conf = subprocess.run([os.path.join(here, "tools/seedconfirm.sh"), src], capture_output=True, text=True).stdout
 conf = "\n".join(l for l in conf.split("\n") if "WARNING" not in l)
 m = re.search(r"RESULT base_rc=(\d+) maketest_rc=(\d+) mutated_rc=(\d+)", conf)
